@@ -161,6 +161,23 @@ def run(tier, seed):
         if o != "ok":
             ofail.append({"what": "collect", "mode": mode, "n": n, "values": [str(v) for v in vals], "impl": r["res"], "oracle": o,
                           "tag": {"fn": "collect:" + mode}})
+    # ---- O-C11a': a NaN among the values (sqrt / log of a negative number, 0/0, a spotlight printing NaN) ---------
+    # NaN is not ordered: `top` / `bottom` N hold the N largest / smallest of the values that ARE numbers
+    for _ in range(150 if tier == "quick" else 3000):
+        mode, n = rng.pick(["top", "bottom"]), rng.range(1, 5)
+        vals = [("NaN!" if rng.chance(1, 4) else F(rng.range(-6, 12), rng.pick([1, 1, 2]))) for _ in range(rng.range(1, 9))]
+        if "NaN!" not in vals:
+            vals[rng.below(len(vals))] = "NaN!"
+        r = impl.call("collect", Mode=mode, N=n, Values=[v if v == "NaN!" else float(v) for v in vals])
+        rep.case(("collect-nan", mode, n, tuple(str(v) for v in vals)))
+        rep.count("collect-with-NaN:" + mode)
+        real = r.get("res") or []
+        nums = [v for v in vals if v != "NaN!"]
+        o = "FAIL a NaN was collected" if "NaN!" in real else \
+            model.ask("C11 collectspec %s %d %s %s" % (mode, n, ",".join(g.sc_tok(v) for v in nums) or "-", impl_val_tok(real)))
+        if r.get("err") or o != "ok":
+            ofail.append({"what": "collect with a NaN among the values", "mode": mode, "n": n, "values": [str(v) for v in vals], "impl": real, "oracle": o if not r.get("err") else r.get("err"),
+                          "tag": {"fn": "collects:" + mode, "nan": True}})
     # ---- K/O-C11a: functions --------------------------------------------------------
     nfn = 1500 if tier == "quick" else 60000
     for _ in range(nfn):
